@@ -29,9 +29,12 @@ Fails(c) ==
          [] cl = "identity_map" -> o.filter_nodes = 1 \/ (NumNodes(out) = NumNodes(ts) /\ \A u \in NodesOf(ts) : c.nm[u + 1] = u)
          [] cl = "time" -> \A u \in mapped : TimeOf(out, c.nm[u + 1]) = TimeOf(ts, u) /\ out.ind_tag[c.nm[u + 1] + 1] = ts.ind_tag[u + 1]
                                            /\ out.pop_tag[c.nm[u + 1] + 1] = ts.pop_tag[u + 1] /\ out.node_tag[c.nm[u + 1] + 1] = u
-         [] cl = "flags" -> \A u \in mapped : IF o.update_sample_flags = 1
-                                              THEN IsSample(out, c.nm[u + 1]) = (u \in S)
-                                              ELSE out.flags[c.nm[u + 1] + 1] = ts.flags[u + 1]
+         \* the sample bit is set exactly on the chosen samples (unless update_sample_flags is off); every
+         \* other flag bit is preserved
+         [] cl = "flags" -> \A u \in mapped : LET rf == ts.rawflags[u + 1] of == out.rawflags[c.nm[u + 1] + 1] IN
+                                              IF o.update_sample_flags = 1
+                                              THEN of = (rf - (rf % 2)) + (IF u \in S THEN 1 ELSE 0)
+                                              ELSE of = rf
          [] cl = "mutations" -> o.reduce_to_site_topology = 1 \/
                (/\ Len(out.muts) = Len(keptMuts)
                 /\ \A i \in 1..Len(keptMuts) : LET m == ts.muts[keptMuts[i]] om == out.muts[i] IN
